@@ -240,7 +240,8 @@ func main() {
 	nstruct := flag.Int("structs", 12, "generated values per struct")
 	nmut := flag.Int("mut", 10, "mutations per struct value")
 	nlisk := flag.Int("lisk32", 200, "random lisk32 addresses")
-	parts := flag.String("parts", "prim,struct,lisk32,ids", "which parts to run")
+	nstore := flag.Int("store", 6, "chains saved and re-read through DataAccess")
+	parts := flag.String("parts", "prim,struct,lisk32,ids,store", "which parts to run")
 	in := flag.String("in", "", "replay: JSONL of records to re-run")
 	flag.Parse()
 	rng := hx.NewRng(hx.SeedFromEnv())
@@ -280,6 +281,9 @@ func main() {
 	}
 	if want["ids"] {
 		genIDs(o, rng)
+	}
+	if want["store"] {
+		genStore(o, rng, *nstore)
 	}
 }
 
